@@ -881,6 +881,10 @@ class Instance(Component, np.ndarray):
 
             for j in range(n_cities):
                 dist = int(matrix[i, j])
+                if dist < 0:
+                    raise ValueError(
+                        f"distance from {i} to {j} is {dist} but distances "
+                        "cannot be negative.")
                 if i == j:
                     if dist != 0:
                         raise ValueError(
